@@ -499,7 +499,16 @@ fn c04(cx: &mut Ctx<'_, '_>) {
             );
             return;
         }
-        End::PanicEscaped(_) | End::Aborted(_) => return,
+        End::PanicEscaped(p) => {
+            cx.viol(
+                "C04",
+                "termination:panic-escaped",
+                format!("the event stream did not end: a panic came out of it ({p}); scenarios still queued are never attempted"),
+                json!(null),
+            );
+            return;
+        }
+        End::Aborted(_) => return,
     }
     let ff_tripped = an.case.cfg.fail_fast()
         && (an.first_final_failure.is_some() || out.evs.iter().any(|r| matches!(r.ev, Ev::ParseErr(_))));
